@@ -25,3 +25,22 @@ def _ring_bonds_to_selfies(lbond: 'DirectedBond', rbond: 'DirectedBond'):
     ensures(implies(lbond.order == 1 and not (typed(lbond.stereo, 'None') and typed(rbond.stereo, 'None')),
                     result == ("-" if typed(lbond.stereo, 'None') else lbond.stereo)
                     + ("-" if typed(rbond.stereo, 'None') else rbond.stereo)), tag="C04:ring-stereo-both-ends")
+
+
+@contract("selfies/encoder.py::_check_bond_constraints", props=["C06", "C09"])
+def _check_bond_constraints(mol: 'MolecularGraph', smiles: str):
+    requires(table_ok(_current_constraints))
+    requires(wf(mol))
+    requires(all(atom_fields_ok(mol._atoms[i]) and not mol._atoms[i].is_aromatic and typed(mol._bond_counts[i], 'int')
+                 for i in range(len(mol._atoms))))
+    # strict encoding rejects exactly the molecules in which some atom exceeds its capacity (table - explicit H)
+    raises(EncoderError, when=any(mol._bond_counts[i] > capH(mol._atoms[i]) for i in range(len(mol._atoms))))
+    ensures(not any(mol._bond_counts[i] > capH(mol._atoms[i]) for i in range(len(mol._atoms))),
+            tag="C06:accepts-only-within-capacity")
+    invariant("for atom in mol.get_atoms()",
+              typed(errors, 'list') and fresh(errors)
+              and implies(len(errors) == 0, all(not (mol._bond_counts[i] > capH(mol._atoms[i])) for i in range(_k)))
+              and implies(len(errors) > 0, any(mol._bond_counts[i] > capH(mol._atoms[i]) for i in range(_k)))
+              and all(typed(errors[j], 'tuple[str,int,int]') for j in range(len(errors))), tag="errors-iff-violation-seen")
+    invariant("for e in errors", typed(err_msg, 'str')
+              and all(typed(errors[j], 'tuple[str,int,int]') for j in range(len(errors))), tag="message-building")
